@@ -390,3 +390,62 @@ def check_names_bound(ctx, module_names):
                     "reads %s, which is never bound (not a parameter, local, module name, import or builtin): NameError as soon as the path executes" % names)
         if not bad:
             ctx.ok("%s:names-bound" % mn, m.relpath + ":1")
+
+
+def update_fields(prog, cls, depth=0):
+    """attribute names written on `self` by cls.update(), following Base.update(self, x) calls"""
+    found = prog.find_method(cls, "update")
+    out = set()
+    if found is None or depth > 4:
+        return out
+    owner, f = found
+    for t, s in stores_in(f):
+        if is_self_attr(t):
+            out.add(t.attr)
+    for call in calls_in(f):
+        if isinstance(call.func, ast.Attribute) and call.func.attr == "update" and isinstance(call.func.value, ast.Name) and call.args and norm(call.args[0]) == "self":
+            base = prog.resolve_class_expr((owner or cls).module, call.func.value)
+            if base is not None and base is not cls:
+                out |= update_fields(prog, base, depth + 1)
+    return out
+
+
+def check_header_copy_first(ctx, cls, fn, label):
+    """in a decode method: the copy of the carrier's header fields into self (X.update(self, pdu)) must not follow a
+    store of a decoded value into one of the fields the copy writes - the decoded value would be overwritten"""
+    prog = ctx.prog
+    calls = [c for c in calls_in(fn) if isinstance(c.func, ast.Attribute) and c.func.attr == "update" and c.args and norm(c.args[0]) == "self"
+             and isinstance(c.func.value, ast.Name)]
+    bad = []
+    for c in calls:
+        k = prog.resolve_class_expr(cls.module, c.func.value)
+        if k is None:
+            continue
+        flds = update_fields(prog, k)
+        for t, s in stores_in(fn):
+            if is_self_attr(t) and t.attr in flds and s.lineno < c.lineno and same_block_chain(s, c):
+                bad.append((t.attr, s.lineno, c.lineno))
+    ctx.check("%s:header-copy-before-decoded-fields" % label, bool(calls) and not bad, where(cls.module, calls[0] if calls else fn),
+              "the header copy %s overwrites decoded field(s) %s stored before it" % (norm(calls[0]) if calls else "(missing)", sorted({b[0] for b in bad})) if calls else
+              "decode does not copy the carrier's addressing into the decoded PDU")
+
+
+def same_block_chain(a, b):
+    """may statement-level nodes a and b lie on one path?  (not in different arms of the same if/try)"""
+    def chain(n):
+        out = []
+        p = n
+        while p is not None:
+            par = getattr(p, "_parent", None)
+            if par is not None:
+                for fld in ("body", "orelse", "handlers", "finalbody"):
+                    lst = getattr(par, fld, None)
+                    if isinstance(lst, list) and p in lst:
+                        out.append((id(par), fld))
+            p = par
+        return out
+    ca, cb = dict(chain(a)), dict(chain(b))
+    for par, fld in ca.items():
+        if par in cb and cb[par] != fld and {fld, cb[par]} == {"body", "orelse"}:
+            return False
+    return True
